@@ -15,20 +15,27 @@
 
 use std::sync::atomic::{AtomicBool, Ordering};
 use std::sync::mpsc::{channel, Receiver, Sender};
-use std::sync::Arc;
+use std::sync::{Arc, Mutex};
 use std::time::Duration;
 
 use hutil::{Args, Log, Rng, Stats};
 use ractor::verif::{self, ThreadCtl, ThreadPhase};
 use ractor::{Actor, ActorCell, ActorProcessingErr, ActorRef, SupervisionEvent};
 
-struct Node;
+#[derive(Default)]
+struct Node {
+    /// `spawn_linked` racer: the new cell is published here by `pre_start` (before the link is attempted)
+    slot: Option<Arc<Mutex<Option<ActorCell>>>>,
+}
 
 impl Actor for Node {
     type Msg = ();
     type State = ();
     type Arguments = ();
-    async fn pre_start(&self, _: ActorRef<()>, _: ()) -> Result<(), ActorProcessingErr> {
+    async fn pre_start(&self, myself: ActorRef<()>, _: ()) -> Result<(), ActorProcessingErr> {
+        if let Some(s) = &self.slot {
+            *s.lock().unwrap() = Some(myself.get_cell());
+        }
         Ok(())
     }
     // a supervisor that is told about a child's end does nothing (the default would make it fail)
@@ -61,6 +68,8 @@ enum Racer {
     None,
     Link(usize, usize),
     Unlink(usize, usize),
+    /// `Actor::spawn_linked(.., supervisor = p)` on the racer's own runtime; the racer thread then hosts the new actor
+    SpawnLinked(usize),
 }
 
 #[derive(Clone, Debug)]
@@ -80,8 +89,8 @@ fn actor_thread(sup: Option<ActorCell>, tx: Sender<ActorCell>, go: Receiver<()>,
     let rt = tokio::runtime::Builder::new_current_thread().enable_all().start_paused(true).build().unwrap();
     let cell = rt.block_on(async {
         let r = match sup {
-            Some(s) => Actor::spawn_linked(None, Node, (), s).await,
-            None => Actor::spawn(None, Node, ()).await,
+            Some(s) => Actor::spawn_linked(None, Node::default(), (), s).await,
+            None => Actor::spawn(None, Node::default(), ()).await,
         };
         let (a, _h) = r.expect("spawn");
         // let the loop task reach its first await
@@ -110,6 +119,37 @@ fn actor_thread(sup: Option<ActorCell>, tx: Sender<ActorCell>, go: Receiver<()>,
     drop(rt);
 }
 
+/// the `spawn_linked` racer: the whole call runs under the controller (status publications, the start link,
+/// on refusal the cleanup of the new cell); afterwards the thread hosts the new actor like an actor thread
+fn spawn_racer(
+    sup: ActorCell,
+    slot: Arc<Mutex<Option<ActorCell>>>,
+    go: Receiver<()>,
+    ctl: Arc<ThreadCtl>,
+    stop: Arc<AtomicBool>,
+    res: Sender<bool>,
+) {
+    let rt = tokio::runtime::Builder::new_current_thread().enable_all().start_paused(true).build().unwrap();
+    let _ = go.recv();
+    verif::thread_register(ctl.clone());
+    let r = rt.block_on(Actor::spawn_linked(None, Node { slot: Some(slot) }, (), sup));
+    let _ = res.send(r.is_ok());
+    loop {
+        verif::point("h.idle");
+        if stop.load(Ordering::SeqCst) {
+            break;
+        }
+        rt.block_on(async {
+            for _ in 0..8 {
+                tokio::task::yield_now().await;
+            }
+        });
+    }
+    verif::thread_unregister();
+    ctl.finish();
+    drop(rt);
+}
+
 fn racer_thread(r: Racer, cells: Vec<ActorCell>, go: Receiver<()>, ctl: Arc<ThreadCtl>) {
     let _ = go.recv();
     verif::thread_register(ctl.clone());
@@ -118,7 +158,7 @@ fn racer_thread(r: Racer, cells: Vec<ActorCell>, go: Receiver<()>, ctl: Arc<Thre
             let _ = cells[c].verif_try_link(cells[p].clone());
         }
         Racer::Unlink(c, p) => cells[c].unlink(cells[p].clone()),
-        Racer::None => {}
+        Racer::None | Racer::SpawnLinked(_) => {}
     }
     verif::thread_unregister();
     ctl.finish();
@@ -143,7 +183,16 @@ fn run_case(log: &mut Log, st: &mut Stats, c: &Case, rng: &mut Rng) {
         gos.push(gtx);
     }
     let racer_tid = n;
-    if !matches!(c.racer, Racer::None) {
+    let slot: Arc<Mutex<Option<ActorCell>>> = Arc::new(Mutex::new(None));
+    let (res_tx, res_rx) = channel::<bool>();
+    if let Racer::SpawnLinked(p) = &c.racer {
+        let (gtx, grx) = channel();
+        let ctl = ThreadCtl::new();
+        let (sup, slot2, ctl2, stop2) = (cells[*p].clone(), slot.clone(), ctl.clone(), stop.clone());
+        handles.push(std::thread::spawn(move || spawn_racer(sup, slot2, grx, ctl2, stop2, res_tx)));
+        ctls.push(ctl);
+        gos.push(gtx);
+    } else if !matches!(c.racer, Racer::None) {
         let (gtx, grx) = channel();
         let ctl = ThreadCtl::new();
         let (r, cs, ctl2) = (c.racer.clone(), cells.clone(), ctl.clone());
@@ -151,10 +200,21 @@ fn run_case(log: &mut Log, st: &mut Stats, c: &Case, rng: &mut Rng) {
         ctls.push(ctl);
         gos.push(gtx);
     }
+    // the tree as the lock-free readers show it, the racer's new actor included once `pre_start` has published it
+    let base = cells.clone();
+    let slot_s = slot.clone();
+    let snapshot = move |_: &[ActorCell]| -> String {
+        let mut all = base.clone();
+        if let Some(c) = slot_s.lock().unwrap().clone() {
+            all.push(c);
+        }
+        snapshot(&all)
+    };
     let racer_s = match &c.racer {
         Racer::None => "none".to_string(),
         Racer::Link(a, b) => format!("link:{a}:{b}"),
         Racer::Unlink(a, b) => format!("unlink:{a}:{b}"),
+        Racer::SpawnLinked(p) => format!("spawnl:{p}"),
     };
     let par: Vec<String> = c.parent.iter().map(|p| p.map(|x| x.to_string()).unwrap_or("-".into())).collect();
     log.rec(
@@ -254,13 +314,20 @@ fn run_case(log: &mut Log, st: &mut Stats, c: &Case, rng: &mut Rng) {
         log.rec("hung", format!("hung |{}", snapshot(&cells)));
         st.bump("hung");
     } else {
-        log.rec("rest", format!("ok |{}", snapshot(&cells)));
+        let sp = match res_rx.try_recv() {
+            Ok(true) => "ok",
+            Ok(false) => "err",
+            Err(_) => "-",
+        };
+        log.rec(format!("rest spawn={sp}"), format!("ok |{}", snapshot(&cells)));
     }
     st.add("steps", steps);
     // let everybody go home
     stop.store(true, Ordering::SeqCst);
-    for (i, c) in cells.iter().enumerate() {
-        let _ = i;
+    for c in cells.iter() {
+        c.kill();
+    }
+    if let Some(c) = slot.lock().unwrap().clone() {
         c.kill();
     }
     for ctl in &ctls {
@@ -292,8 +359,9 @@ fn main() {
         let (shape, mut parent) = shapes()[(k % 4) as usize].clone();
         let cause = if rng.chance(3, 4) { "kill" } else { "stop" };
         let n0 = parent.len();
-        let racer = match rng.below(5) {
+        let racer = match rng.below(7) {
             0 => Racer::None,
+            5 | 6 => Racer::SpawnLinked(rng.below(n0 as u64) as usize),
             1 | 2 => {
                 // an orphan (own thread too) linked under any actor of the tree
                 parent.push(None);
